@@ -153,8 +153,11 @@ def swap(e):
 
 @op('checkpoint', 'read')
 def g_checkpoint(w, rng, st):
-    if len(w.checkpoints) >= 2 or not st.of_class('NetworkNode'):
+    if not st.of_class('NetworkNode'):
         return None
+    if len(w.checkpoints) >= 2:
+        # roll: the oldest checkpoint is dropped, so later comparisons are against a recent version (few edits apart)
+        return {'replace': 0}
     return {}
 
 
@@ -162,7 +165,13 @@ def g_checkpoint(w, rng, st):
 def x_checkpoint(w, s, st, info):
     if st.dups:
         raise SkipStep()
-    new_id = 'ckpt-%d' % (len(w.checkpoints) + 1)
+    if s.get('replace') is not None:
+        if s['replace'] >= len(w.checkpoints):
+            raise SkipStep()
+        old_id, _ = w.checkpoints.pop(s['replace'])
+        w.imp.delete_graph(graph_id=old_id)
+    w.ckpt_ctr = getattr(w, 'ckpt_ctr', 0) + 1
+    new_id = 'ckpt-%d' % w.ckpt_ctr
     w.topo.graph_model.clone_graph(new_graph_id=new_id)
     snap = graph_state(w.imp, new_id)
     if canon(snap) != canon(st.state):
@@ -183,8 +192,9 @@ def old_topology(w, gid):
 def g_diff_slivers(w, rng, st):
     if not w.checkpoints:
         return None
-    return {'ckpt': rng.randrange(len(w.checkpoints)), 'what': rng.choice(['node', 'node', 'service', 'interface']),
-            'pick': rng.randrange(1000)}
+    newest = len(w.checkpoints) - 1
+    return {'ckpt': newest if rng.random() < 0.6 else rng.randrange(len(w.checkpoints)),
+            'what': rng.choice(['node', 'node', 'service', 'interface']), 'pick': rng.randrange(1000)}
 
 
 @op('diff_slivers', 'read')
@@ -211,6 +221,11 @@ def x_diff_slivers(w, s, st, info):
         if not both or not unique(so, so.of_class('NetworkNode')) or not unique(st, st.of_class('NetworkNode')):
             raise SkipStep()
         n = sorted(both)[s['pick'] % len(both)]
+        if s.get('node_name'):
+            named = [x for x in both if st.name(x) == s['node_name']]
+            if not named:
+                raise SkipStep()
+            n = named[0]
         for stx in (so, st):
             if not unique(stx, stx.components_of(n)) or not unique(stx, stx.services_of(n)):
                 raise SkipStep()
@@ -230,6 +245,11 @@ def x_diff_slivers(w, s, st, info):
                 not unique(so, so.of_class('NetworkService')) or not unique(st, st.of_class('NetworkService')):
             raise SkipStep()
         x = sorted(both)[s['pick'] % len(both)]
+        if s.get('svc_name'):
+            named = [y for y in both if st.name(y) == s['svc_name']]
+            if not named:
+                raise SkipStep()
+            x = named[0]
         if not unique(so, so.cps_of_service(x)) or not unique(st, st.cps_of_service(x)):
             raise SkipStep()
         a = told.network_services[so.name(x)].get_sliver()
@@ -241,6 +261,10 @@ def x_diff_slivers(w, s, st, info):
         if not both:
             raise SkipStep()
         c = sorted(both)[s['pick'] % len(both)]
+        if s.get('cp'):
+            if s['cp'] not in both:
+                raise SkipStep()
+            c = s['cp']
         if not unique(so, so.child_cps(c)) or not unique(st, st.child_cps(c)):
             raise SkipStep()
         a = told.graph_model.build_deep_interface_sliver(node_id=c)
@@ -289,3 +313,56 @@ def x_diff_slivers(w, s, st, info):
                        (label, sorted(d_ab['added'][k]), sorted(d_ba['removed'][k]), sorted(d_ab['removed'][k]),
                         sorted(d_ba['added'][k])))
     w.stats.inc('probe.diff.%s.%s' % (what, 'different' if not is_empty(exp) else 'same'))
+
+
+def single_edit_sequence(w, rng, st):
+    """C17: a fresh checkpoint, ONE tracked edit somewhere below a node, then the comparison of exactly that node -
+    'what changed' must be reported also when it is the only thing that changed"""
+    from .w2_props import element_targets, gen_value
+    from .w2_ops import generate
+    cands = []
+    for kind, ref, xid in element_targets(st):
+        if kind == 'link':
+            continue
+        node = None
+        if kind in ('node', 'component', 'interface'):
+            node = ref.get('node')
+        elif kind == 'service' and ref.get('owned'):
+            o = st.owner_of_service(xid)
+            while o and st.cls(o[0]) != 'NetworkNode':
+                o = st.node_of_component(o[0]) if st.cls(o[0]) == 'Component' else None
+            node = st.name(o[0]) if o else None
+        if node is not None:
+            cands.append((kind, ref, node))
+    final = None
+    r = rng.random()
+    if r < 0.2:
+        tops = [(k, rf, x) for k, rf, x in element_targets(st) if k == 'service' and not rf.get('owned')]
+        if tops:
+            kind, ref, x = rng.choice(tops)
+            final = {'op': 'diff_slivers', 'what': 'service', 'pick': 0, 'svc_name': st.name(x)}
+    elif r < 0.4:
+        ded = [(k, rf, x) for k, rf, x in element_targets(st) if k == 'interface' and
+               (st.typ(x) == 'DedicatedPort' or (st.is_sub(x) and st.parent_cp(x)))]
+        if ded:
+            kind, ref, x = rng.choice(ded)
+            final = {'op': 'diff_slivers', 'what': 'interface', 'pick': 0,
+                     'cp': st.parent_cp(x)[0] if st.is_sub(x) else x}
+    if final is None:
+        if not cands:
+            return None
+        owned = [c for c in cands if c[0] == 'service']
+        kind, ref, node = rng.choice(owned) if owned and rng.random() < 0.4 else rng.choice(cands)
+        final = {'op': 'diff_slivers', 'what': 'node', 'pick': 0, 'node_name': node}
+    names = [rng.choice(['labels', 'capacities', 'user_data'])]
+    if rng.random() < 0.4:
+        names = rng.sample(['labels', 'capacities', 'user_data'], rng.choice([2, 3]))
+    steps = [{'op': 'checkpoint', 'replace': 0} if len(w.checkpoints) >= 2 else {'op': 'checkpoint'}]
+    for nm in names:
+        v = gen_value(rng, nm, kind)
+        if v is None:
+            return None
+        steps.append({'op': 'edit_tracked', 'kind': kind, 'ref': ref, 'name': nm, 'val': v})
+    steps.append(dict(final, ckpt=min(len(w.checkpoints), 1)))
+    w.stats.inc('probe.diff.single_edit_sequences')
+    return steps
